@@ -70,6 +70,30 @@ Example ex_errors :
        DList []] = [CErr; CErr; CErr; CErr].
 Proof. vm_compute. reflexivity. Qed.
 
+(* ---- sets as lists, TextUnmarshaler leaves ---- *)
+(* struct { Tags map[string]struct{} `dials:"tags"`; Who rty.TUp `dials:"who"`; Addr net.IP `dials:"addr"` } *)
+Definition set_fs : fields :=
+  FCons (S "Tags") [tg "dials" "tags"] false (TMap (TBasic KString (S "string")) (TStruct FNil []) [])
+ (FCons (S "Who") [tg "dials" "who"] false (TTextU (S "TUp") true)
+ (FCons (S "Addr") [tg "dials" "addr"] false (TSlice (TBasic (KUint 8) (S "uint8")) netip_name) FNil)).
+Definition set_pfs := ptrify_fields set_fs.
+
+Example set_supported :
+  dec_ok (setslice_fields set_pfs) = true /\
+  forallb (fun f => tags_wf f (setslice_fields set_pfs)) [FJson; FYaml; FToml; FCue] = true.
+Proof. vm_compute. split; reflexivity. Qed.
+
+Example set_as_list_example :
+  map (fun f => decode_wrapped f
+                  (DMap [(S "tags", DList [DStr (S "b"); DStr (S "a"); DStr (S "b")]);
+                         (S "who", DStr (S "me")); (S "addr", DStr (S "10.0.0.1"))]) set_pfs)
+      [FJson; FYaml; FToml; FCue] =
+  let v := Ok [VMap [(VStr (S "a"), VStruct []); (VStr (S "b"), VStruct [])];
+               VPtr (VText (S "me"));
+               VList (map (fun n => VInt (Z.of_N n)) [0;0;0;0;0;0;0;0;0;0;255;255;10;0;0;1]%N)] in
+  [v; v; v; v].
+Proof. vm_compute. reflexivity. Qed.
+
 (* ---- the guard dec_ok is not vacuous (known finding C13/2): a struct that is
    the value type of a map is reached neither by the tag copy nor by the
    duration substitution; JSON and Cue reject a duration string there, YAML
